@@ -311,7 +311,7 @@ pub fn worker(shard: usize, nshards: usize, seed: u64, tier: &str, out: &mut Out
     let (ngames, muts_per) = match (tier, profile.as_str()) {
         ("thorough", "release") => (2500u64, 24),
         ("thorough", _) => (500, 12),
-        (_, "release") => (60, 10),
+        (_, "release") => (200, 12),
         _ => (15, 8),
     };
     let mut rng = Rng::new(seed, 0x1700 + shard as u64);
